@@ -13,7 +13,7 @@ sed -i "s#path = \"/repo\"#path = \"$S/repo\"#" $S/verif/harness/Cargo.toml
 cp /repo/Cargo.lock $S/verif/harness/Cargo.lock 2>/dev/null
 : > $S/results.txt
 k=0
-for sd in $(ls /verif/seeded); do
+for sd in $(ls /verif/seeded | grep -E "${SEEDS_RE:-.}"); do
   k=$((k+1)); [ $((k % N)) -eq $W ] || continue
   d=/verif/seeded/$sd; pid=${sd%%-*}
   p=$d/patch.diff; [ -f $d/patch_rebased.diff ] && p=$d/patch_rebased.diff
